@@ -42,6 +42,9 @@
 #ifndef NCYC_TW
 #define NCYC_TW 6  // pushes into the duration-based window (>= 6 to wrap the 4-slot ring and then grow it)
 #endif
+#ifndef TW_GMAX
+#define TW_GMAX 12  // gaps between the pushes into the duration window (range 10us): both inside and beyond the range
+#endif
 #ifndef NPRIM
 #define NPRIM 3  // primitives on the single key of the one-key TSS / TSD shapes in their second cycle
 #endif
